@@ -4,7 +4,7 @@ import re
 from ..cfg import Renderer, walk, show, flat_guards, guards_of, branches, strip
 from ..facts import callee_names, short
 from ..sig import fn_tokens
-from ..util import view, crate_fns, root_name, expr_calls, expr_fields, expr_vars, loops, agg_field
+from ..util import view, crate_fns, root_name, expr_calls, expr_fields, expr_vars, loops, agg_field, emission_blocks
 
 EXPLANATION = (
     "Static rules over PeerCodec::parse_message, Attribute::decode, Attribute::canonical_flags and validate_update (MIR): "
@@ -107,33 +107,44 @@ def check_reach_guard(prog, fv, r):
     from ..cfg import bool_edges
     f_edges, t_edges = bool_edges(fv, br, False), bool_edges(fv, br, True)
     UPD = re.compile(r"rustybgp_packet::bgp::Update")
-    reaches = fv.aggregates(UPD, "Reach")
-    unreaches = fv.aggregates(UPD, "Unreach")
-    if len(reaches) < 2:
-        r.unanalysable("validate_update: %d Update::Reach constructions (want >= 2)" % len(reaches), fv.loc())
-    for bi, si, s in reaches:
+    # sites where an Update::Reach / Unreach comes into being: aggregates in the body, or the calls a closure that builds
+    # one flows into (iterator chains)
+    reaches = emission_blocks(prog, fv, UPD, "Reach")
+    unreaches = emission_blocks(prog, fv, UPD, "Unreach")
+    if not reaches:
+        r.unanalysable("validate_update: no Update::Reach construction found", fv.loc())
+    for bi in reaches:
         if fv.edge_guarded(bi, f_edges):
             r.ok("Update::Reach @%d only when treat_as_withdraw is false" % fv.line(bi))
         else:
             r.fail(fv.name, "reach-under-withdraw", "Update::Reach can be produced although treat_as_withdraw holds: a route with a faulty attribute would be installed", fv.loc(bi))
-    t_un = [x for x in unreaches if fv.edge_guarded(x[0], t_edges)]
-    f_un = [x for x in unreaches if fv.edge_guarded(x[0], f_edges)]
-    # on the true side the sources must include reach, mp_reach, unreach, mp_unreach
+    t_un = [x for x in unreaches if fv.edge_guarded(x, t_edges)]
+    f_un = [x for x in unreaches if fv.edge_guarded(x, f_edges)]
     rend = Renderer(fv, depth=30, through_names=False)
-    srcs = set()
-    region = {b for b in fv.live if fv.edge_guarded(b, t_edges)}
-    for b in region:
-        t = fv.blocks[b]["t"]
-        if t["t"] == "call":
-            for a in t["args"]:
-                for v in expr_vars(rend.operand(a, 8)):
-                    srcs.add(v)
+
+    def sources(edges):
+        """Variables that feed calls or aggregates (incl. closure captures) in the region behind `edges`."""
+        srcs = set()
+        for b in fv.live:
+            if not fv.edge_guarded(b, edges):
+                continue
+            t = fv.blocks[b]["t"]
+            if t["t"] == "call":
+                for a in t["args"]:
+                    srcs.update(expr_vars(rend.operand(a, 8)))
+            if t["t"] == "switch":
+                srcs.update(expr_vars(rend.operand(t["o"], 8)))
+            for st in fv.blocks[b]["s"]:
+                if "rv" in st:
+                    srcs.update(expr_vars(rend.rvalue(st["rv"], 8)))
+        return srcs
     need = {"reach", "mp_reach", "unreach", "mp_unreach"}
-    if len(t_un) >= 2 and need <= srcs:
+    st_, sf_ = sources(t_edges), sources(f_edges)
+    if t_un and need <= st_:
         r.ok("treat-as-withdraw side: reach+mp_reach become Unreach, unreach+mp_unreach pass through")
     else:
-        r.fail(fv.name, "withdraw-side", "treat-as-withdraw side builds %d Unreach message(s) from %s; need reach, mp_reach, unreach, mp_unreach" % (len(t_un), sorted(srcs & need)), fv.loc(br.bi))
-    if len(f_un) >= 2:
+        r.fail(fv.name, "withdraw-side", "treat-as-withdraw side builds %d Unreach message site(s) from %s; need reach, mp_reach, unreach, mp_unreach" % (len(t_un), sorted(st_ & need)), fv.loc(br.bi))
+    if f_un and {"unreach", "mp_unreach"} <= sf_:
         r.ok("normal side: unreach and mp_unreach still produce Unreach")
     else:
         r.fail(fv.name, "normal-side-withdrawals", "withdrawals are not passed through on the normal side", fv.loc(br.bi))
